@@ -98,6 +98,14 @@ func shadowing() []*ex.E {
 		ex.Cond(ex.Var("bt"), ex.Var("one"), ex.Var("nosuch")),
 		ex.Cond(ex.Var("bf"), ex.Var("nosuch"), ex.Var("one")),
 		ex.Bin("||", ex.Var("bt"), ex.Var("nosuch")),
+		// splat whose per-element traversal contains an index with a variable key, followed by further steps
+		ex.Splat(ex.Var("lo"), true, ex.SAttr("b"), ex.SIdx(ex.Var("zero")), ex.SAttr("x")),
+		ex.Splat(ex.Var("lo"), true, ex.SIdx(ex.Var("sa")), ex.SAttr("x")),
+		ex.Splat(ex.Tuple(ex.Var("o"), ex.Var("oo")), true, ex.SIdx(ex.Var("sa")), ex.SAttr("a"), ex.SIdx(ex.Var("one"))),
+		ex.Splat(ex.Var("lo"), true, ex.SIdx(ex.Tmpl("q", ex.Interp(ex.Var("sa")))), ex.SIdx(ex.Bin("+", one, two)), ex.SAttr("x")),
+		ex.Splat(ex.Var("lo"), false, ex.SAttr("a"), ex.SIdx(ex.Var("zero")), ex.SAttr("x")),
+		ex.ForT("", "v", ex.Var("lo"), ex.Splat(v, true, ex.SAttr("b"), ex.SIdx(one), ex.SAttr("x")), nil),
+		ex.Call("cat", ex.Tmpl("q", ex.Interp(ex.Splat(ex.Var("lo"), true, ex.SIdx(ex.Var("s1")), ex.SAttr("x"))))),
 	}
 }
 
@@ -245,20 +253,21 @@ func judge(c engine.Case) engine.Outcome {
 			src = "${" + src + "}"
 		}
 		q := jsonQuote(src)
-		for i, doc := range []string{q, "[" + q + ", 1]", "{" + q + ": " + q + "}"} {
+		// ... and as the value of a property whose name is repeated (first / second occurrence, nested)
+		docs := []string{q, "[" + q + ", 1]", `{"k": 1, "k": ` + q + "}", `{"k": ` + q + `, "k": 1}`, `[{"k": {"j": 1}, "k": {"j": ` + q + "}}]", "{" + q + ": " + q + "}"}
+		labels := []string{"json-string", "json-array", "json-dup-second", "json-dup-first", "json-dup-nested", "json-object"}
+		var out engine.Outcome
+		for i, doc := range docs {
 			expr, diags := hcljson.ParseExpression([]byte(doc), "t.json")
 			if diags.HasErrors() {
 				return engine.Skip()
 			}
-			out := judgeExpression(d, expr, []string{"json-string", "json-array", "json-object"}[i])
+			out = judgeExpression(d, expr, labels[i])
 			if out.V == engine.Viol {
 				return out
 			}
-			if i == 2 {
-				return out
-			}
 		}
-		return engine.Skip()
+		return out
 	}
 	var expr hclsyntax.Expression
 	var diags hcl.Diagnostics
@@ -305,7 +314,7 @@ func main() {
 		ID:        "C07",
 		Title:     "Reported variable references are a complete dependency set",
 		Technique: "bounded exhaustive two-run scope-pruning check over expression ASTs (native and JSON-embedded) and bodies under hcldec specs / with dynamic blocks, on the real Variables() walkers and evaluators",
-		Rule: "every AST of the expression families plus 31 shadowing shapes (nested for re-binding pool names, splat inside for, template for, object keys bare/parenthesised/template, index keys), natively and embedded as JSON string / array element / object key+value; bodies: see rule_bodies. " +
+		Rule: "every AST of the expression families plus 38 shadowing shapes (nested for re-binding pool names, splat inside for, template for, object keys bare/parenthesised/template, index keys), natively and embedded as JSON string / array element / value of a repeated property name / object key+value; bodies: see rule_bodies. " +
 			"Each is evaluated in the full scope, in the scope restricted to the reported root names, and in a scope where every unreported name (including the names used as iteration variables) has a different value; value and diagnostics (severity, summary, subject) must be identical; names that only occur bound must not be reported. Non-trivial = at least one name reported; distinct = distinct (syntax, construct, reported names, error presence).",
 		Assumptions: []string{"diagnostic detail text (which contains name suggestions that depend on the scope) is not compared"},
 		Gen:         gen,
